@@ -443,6 +443,13 @@ impl<'a> Ctx<'a> {
         for mi in 0..self.w.miners.len() {
             let m = &self.w.miners[mi];
             let ms = &s.miners[&m.idn];
+            // sectors waiting for early termination always have a ProcessEarlyTerminations event pending
+            // (mirror of C05_early_terminations_never_stranded), as long as the miner holds its claim
+            if ms.et > 0 && s.claims.contains(&m.idn) && !s.queue.values().any(|l| l.contains(&(m.idn, ET))) {
+                let what = format!("miner {} has {} sectors waiting for early termination but no ProcessEarlyTerminations event is pending", m.idn, ms.et);
+                self.fail_once(mi, "early-terminations-stranded", what);
+                continue;
+            }
             let nz = !ms.pcd.is_zero() || !ms.ip.is_zero() || !ms.locked.is_zero();
             if nz && !ms.active {
                 if !m.pre {
